@@ -135,6 +135,21 @@ CLAIMED["C18"] = dict(
          "links are not generated.",
     technique="Coq proof (graph components characterised via a checked closure) + exact check of the implementation's labelling against it")
 
+CLAIMED["C19"] = dict(
+    text="Proof: split lengths add up to the original length and are non-negative; the new junction's elevation/coordinates are the "
+         "linear interpolation (between the ends, equal to them at 0 and 1); two pipes in series with the split lengths and no minor loss "
+         "have exactly the head loss of the original for every flow (refuted, with witness, when minor loss > 0: known finding); for "
+         "skeletonization, after ANY sequence of trims/merges the members of the retained nodes' lists are a permutation of the original "
+         "nodes and the demand entries a permutation of the original entries, hence the total demand at every time is conserved. Ties "
+         "decided inside coqc on exact rationals: lengths, elevation, coordinates of real split/break calls; the skeleton map of real "
+         "skeletonize calls is a partition and every retained node's demand entries (tracked by object identity) are exactly those of "
+         "the nodes mapped to it; protected elements are kept. Frame conditions (all other element dictionaries unchanged, input "
+         "untouched with return_copy, new pipe without check valve, unchanged hydraulics after a split) are observed on the implementation.",
+    ref="DESIGN.md section 5 C19",
+    note="Trusted: Coq kernel (axiom-free, uses Permutation from the standard library); harness. Not modelled: pipes with vertices, merged "
+         "pipe properties (equivalent roughness), the hydraulic simulation used to compare heads before/after a split (tolerance 1e-3 m).",
+    technique="Coq proof (field arithmetic, Permutation invariants over merge sequences) + exact-rational and identity-based differential checks")
+
 NOT_YET = {
 }
 
